@@ -95,7 +95,12 @@ def calls_for(W, rng):
     from bob.learn.em import GMMMachine, ISVMachine, IVectorMachine, JFAMachine, KMeansMachine, WCCN, Whitening, linear_scoring
 
     C, D, X = W.C, W.D, W.X
-    Xin = (lambda: da.from_array(X, chunks=(max(2, len(X) // 2), D))) if W.use_dask else (lambda: X)
+    def Xin():
+        if not W.use_dask:
+            return X
+        a = da.from_array(X, chunks=(max(2, len(X) // 2), D))
+        W.lazy = getattr(W, "lazy", []) + [a]  # a Dask array is a caller-owned object too: it must still compute to the same data afterwards
+        return a
 
     def kmeans(max_iter):
         def f():
@@ -176,6 +181,20 @@ def calls_for(W, rng):
     if not hasattr(W, "ivec_cfg"):  # drawn once per world: covariance update on / off, a floor that may lie above some UBM variance
         W.ivec_cfg = (bool(rng.integers(0, 2)), float(rng.choice([1e-10, 1e-10, 0.5, 2.0])))
 
+    def fa_late_ubm():
+        # the machine is built around a UBM that is still untrained; its owner trains (here: parameterises) it afterwards; a
+        # later fit_using_array has no business re-training it
+        ubm2 = GMMMachine(C)
+        cls_ = [ISVMachine, JFAMachine][W.map_partial_cfg[2]]
+        mach = cls_(1, ubm=ubm2, em_iterations=1) if cls_ is ISVMachine else cls_(1, 1, ubm=ubm2, em_iterations=1)
+        ubm2.weights, ubm2.means, ubm2.variances = (np.array(a, dtype=float) for a in (W.ubm.weights, W.ubm.means, W.ubm.variances))
+        kept = [np.array(a) for a in (ubm2.weights, ubm2.means, ubm2.variances)]
+        mach.fit_using_array(Xin(), np.array(W.labels))
+        now = [np.asarray(a) for a in (ubm2.weights, ubm2.means, ubm2.variances)]
+        if not all(np.array_equal(a, b) for a, b in zip(kept, now)):
+            W.extra = getattr(W, "extra", []) + [{"sig": "trained-ubm-modified:fa_fit_using_array_late_ubm", "what": "fit_using_array changed the parameters of a UBM its caller had already trained"}]
+        return mach, None
+
     def ivec():
         mach = IVectorMachine(W.ubm, dim_t=1, max_iterations=2, update_sigma=W.ivec_cfg[0], variance_floor=W.ivec_cfg[1])
         mach.fit(W.stats)
@@ -190,7 +209,7 @@ def calls_for(W, rng):
     out = {"kmeans_fit_0": (kmeans(0), []), "kmeans_fit_2": (kmeans(2), []), "gmm_ml_fit": (gmm_ml, []), "gmm_map_fit": (gmm_map, []),
            "gmm_map_partial_fit": (gmm_map_partial, []), "gmm_map_unfitted_use": (gmm_map_unfitted, []),
            "gmm_kmeans_init_fit": (gmm_kmeans_init, []), "acc_stats_transform": (acc, []), "stats_add": (add, []),
-           "stats_iadd": (iadd, ["stats2.n", "stats2.sum_px", "stats2.sum_pxx"]), "stats_accumulate_from_empty": (accumulate, []), "linear_scoring": (lin, []), "isv_fit_enroll_score": (isv, []),
+           "stats_iadd": (iadd, ["stats2.n", "stats2.sum_px", "stats2.sum_pxx"]), "stats_accumulate_from_empty": (accumulate, []), "fa_fit_using_array_late_ubm": (fa_late_ubm, []), "linear_scoring": (lin, []), "isv_fit_enroll_score": (isv, []),
            "jfa_fit_enroll_score": (jfa, []), "isv_array_entry_points": (isv_array, []), "ivector_fit_project": (ivec, []), "wccn_whitening": (linear, [])}
     if D < 1:
         out.pop("wccn_whitening")
@@ -212,6 +231,14 @@ def run_sequence(ctx, W, names):
             direct.append({"sig": f"call-raises:{name}", "what": repr(res), "call": name})
             effects.append({"name": name, "writes": writes, "holds": [], "handed": handed_ids})
             continue
+        for x in getattr(W, "extra", []):
+            direct.append(dict(x, call=name))
+        W.extra = []
+        for a in getattr(W, "lazy", []):
+            now = core.impl(lambda: np.asarray(a.compute()))
+            if isinstance(now, core.ImplError) or now.shape != W.X.shape or not np.array_equal(now, W.X):
+                direct.append({"sig": f"input-modified:{name}:dask-array", "what": f"{name}: the Dask array handed over no longer computes to the caller's data", "call": name})
+        W.lazy = []
         est, result = res
         held = arrays_in(est) + arrays_in(result, skip=False)
         holds = W.holder_ids(held)
